@@ -214,7 +214,7 @@ def tier_a(impl, spec, scripts, aspects):
                     break
             ih = dict((k, (c, sh)) for k, c, sh in map(parse_H, b['tags'].get('H', [])))
             sh_ = dict((k, (c, sh)) for k, c, sh in map(parse_H, s['tags'].get('H', [])))
-            if 'values' in aspects or 'shared' in aspects:
+            if 'values' in aspects or 'shared' in aspects or 'sharedvals' in aspects:
                 for k in sorted(set(ih) | set(sh_), key=lambda x: (len(x), x)):
                     if k not in ih or k not in sh_:
                         continue       # liveness mismatch is the 'valid' aspect
@@ -231,7 +231,7 @@ def tier_a(impl, spec, scripts, aspects):
                                 break
                         if fail:
                             break
-                    if 'shared' in aspects:
+                    if 'shared' in aspects or 'sharedvals' in aspects:
                         iv = sorted((x[0], x[2]) for x in (ish or []) if len(x) == 3)
                         sv = sorted(ssh or [])
                         if iv != sv or any(len(x) != 3 or x[1] == 'inull' for x in (ish or [])):
